@@ -10,11 +10,12 @@ CASE_TYPE = "C10.case"
 CHECK_FN = "C10.check_case"
 SHARD = 40
 RULE = ("a case is a namespace tree on disk (1-4 root directories, nesting depth 0-3, .dsdl and .uavcan files, several versions per "
-        "name, files that are no definitions) plus read_namespace / read_files calls (target subsets of 1-5 files, with repetitions) "
+        "name, files that are no definitions, directories named like definition files) plus read_namespace / read_files calls (target subsets of 1-5 files, with repetitions) "
         "and calls whose directory sets are nested, equal, or equal in name up to case with allow_root_namespace_name_collision "
         "both ways; every call is repeated with 2-3 equivalent spellings of the directory arguments (relative, '..', '.', through a "
         "symbolic link, str / Path, permuted, duplicated; for read_files also directories and target files spelled differently: root "
-        "through a symbolic link with real target paths and the converse) and the whole case under 4 values of PYTHONHASHSEED each with its own seeded "
+        "through a symbolic link with real target paths and the converse; a root that holds only dependencies given as a bare "
+        "relative name with its parent as working directory) and the whole case under 4 values of PYTHONHASHSEED each with its own seeded "
         "shuffle of Path.rglob results; non-trivial = some call returns >= 2 types or is rejected because of the directory set; "
         "distinct = by hash of the canonical case")
 THEOREMS_NOTE = ("C10_complete / C10_files / C10_files_api fix the returned sets (direct = requested, transitive = rest of the closure, disjoint, "
@@ -115,6 +116,25 @@ def gen_case(rng, tier):
             # paths, and the converse; '..' against real
             a, b = rng.choice([("link", "abs"), ("link", "abs"), ("abs", "link"), ("abs", "link"), ("dotdot", "abs"), ("link", "dotdot")])
             q["variants"].append({"how": a, "how_targets": b, "perm": rng.randrange(1 << 30), "dup": rng.random() < 0.3, "as_path": rng.random() < 0.5})
+    # directories named like definition files (empty, or holding notes): they are no definition FILES and must not count
+    for _ in range(rng.choice([0, 1, 1, 2])):
+        o = rng.choice([d for d in defs if d["ext"] != "txt"])
+        nm = rng.choice(["Backup.1.0.uavcan", "Telemetry.0.9.dsdl", "%s.%d.%d.dsdl" % (o["short"], o["maj"], o["min"] + 1), "7000.Old.1.0.dsdl"])
+        dd = o["dir"] + [nm]
+        if dd not in dirs and not any(x["dir"] == o["dir"] and B.basename(x) == nm for x in defs):
+            dirs.append(dd)
+            if rng.random() < 0.5:
+                defs.append(dict(o, id=len(defs), dir=dd, ext="txt", body=[["fault"]], short="notes", port=None))
+    for q in qs:
+        if q["k"] == "files":
+            # a root given as a bare relative name (working directory = its parent), preferably one that holds no target:
+            # it must still be a lookup directory
+            fl = {f["id"]: f for f in defs}
+            cand = [r for r in q["roots"] if len(r) >= 2 and not any(B.is_under(r, fl[t]) for t in q["targets"])] or [r for r in q["roots"] if len(r) >= 2]
+            # (a bare name is also a root namespace NAME: when a target lies under none of the directories the name-based
+            # inference applies and the spellings are not equivalent)
+            if cand and all(any(B.is_under(r, fl[t]) for r in q["roots"]) for t in q["targets"]):
+                q["variants"].append({"how": "abs", "bare": list(rng.choice(cand)), "perm": rng.randrange(1 << 30), "dup": False, "as_path": rng.random() < 0.5})
     return {"files": defs, "queries": qs, "flavor": flavor, "dirs": dirs}
 
 
@@ -135,9 +155,19 @@ def corpus():
         if q["k"] == "files":
             q["variants"] += [{"how": "link", "how_targets": "abs", "perm": 1, "dup": False, "as_path": True},
                               {"how": "abs", "how_targets": "link", "perm": 1, "dup": False, "as_path": False}]
+    # dependencies only in a root that is given as a bare relative name; directories named like definitions
+    an, pl = ["t", "animals"], ["t", "plants"]
+    fb = [B.mkfile(0, an, "Cat", 1, 0, [["ref", "plants.Grass", 1, 0, 0], ["ref", "Paw", 1, 0, 0]]), B.mkfile(1, an, "Paw", 1, 0, [["plain", 8]]),
+          B.mkfile(2, pl, "Grass", 1, 0, [["ref", "Seed", 1, 0, 2]]), B.mkfile(3, pl, "Seed", 1, 0, [["plain", 8]]),
+          dict(B.mkfile(4, an + ["Backup.1.0.uavcan"], "notes", 1, 0, [["fault"]]), ext="txt")]
+    qb = [{"k": "files", "targets": [0], "roots": [an, pl], "lookups": [],
+           "variants": [{"how": "abs", "bare": pl, "perm": 1, "dup": False, "as_path": a} for a in (False, True)] +
+                       [{"how": "abs", "bare": an, "perm": 2, "dup": False, "as_path": False}, {"how": "dotdot", "perm": 2, "dup": True, "as_path": False}]},
+          {"k": "ns", "root": an, "lookups": [pl], "allow": True, "variants": []}, {"k": "ns", "root": pl, "lookups": [], "allow": True, "variants": []}]
+    extra = {"files": fb, "queries": qb, "flavor": "corpus-bare", "dirs": [an, pl, an + ["Backup.1.0.uavcan"], pl + ["s", "Telemetry.0.9.dsdl"], pl + ["Seed.1.1.dsdl"]]}
     # F5b: two files, one name and version, equal texts
     tw = [B.mkfile(0, ns, "A", 1, 0, [["plain", 8]]), B.mkfile(1, ns, "A", 1, 0, [["plain", 8]], port=7000), B.mkfile(2, ns, "B", 1, 0, [])]
-    return [{"files": fs, "queries": qs, "flavor": "corpus", "dirs": [ns, lk]},
+    return [extra, {"files": fs, "queries": qs, "flavor": "corpus", "dirs": [ns, lk]},
             {"files": tw, "queries": [{"k": "ns", "root": ns, "lookups": [], "allow": True, "variants": []}], "flavor": "corpus-twins", "dirs": [ns]}]
 
 
@@ -289,7 +319,7 @@ def describe(case, obs):
         else:
             keys.append("%s:err:%s" % (q["k"], o["err"]))
         for v in q.get("variants", []):
-            keys.append("spelling:" + v["how"] + ("/targets:" + v["how_targets"] if v.get("how_targets") else ""))
+            keys.append("spelling:" + ("bare-root" if v.get("bare") else v["how"]) + ("/targets:" + v["how_targets"] if v.get("how_targets") else ""))
     if obs.get("pred_fail"):
         keys.append("pred_fail:" + obs["pred_fail"].split(":")[1].strip()[:12])
     return keys
